@@ -268,3 +268,106 @@ Qed.
 Theorem gen_Queue_is_the_model : forall tk tv args, Forall size_ok args ->
   run_ctor gen_Queue tk tv args = out_map FO (facade FQueue tk tv args).
 Proof. ctor_main gen_Queue FQueue env_queue 8%nat queue_step queue_post. Qed.
+
+(* ====================================================================================================== *)
+(* Association                                                                                              *)
+(* ====================================================================================================== *)
+(* the arguments of an association call as the correspondence encodes them: notations, plain values, foreign *)
+Definition assoc_arg (a : arg) : Prop := match a with ANotation | AVal _ | AOther => True | _ => False end.
+
+Definition astate := (option val * option val)%type.
+Definition astep (tk tv : ety) (st : astate) (a : arg) : option astate :=
+  let '(key, value) := st in
+  match a with
+  | ANotation => Some st
+  | _ =>
+    match arg_val a with
+    | None => None
+    | Some x =>
+      if has_ty tk x then
+        match key, value with
+        | Some _, None => if has_ty tv x then Some (key, Some x) else Some (Some x, value)
+        | _, _ => Some (Some x, value)
+        end
+      else if has_ty tv x then Some (key, Some x)
+      else None
+    end
+  end.
+
+Lemma assoc_loop_is_fold : forall tk tv args key value,
+  assoc_loop tk tv key value args = fold_model (astep tk tv) (key, value) args.
+Proof.
+  intros tk tv. induction args as [|a r IH]; intros key value; [reflexivity|].
+  destruct a; cbn [assoc_loop fold_model astep arg_val]; try apply IH; try reflexivity;
+    repeat match goal with
+           | |- context [if ?c then _ else _] => destruct c
+           | |- context [match ?o with Some _ => _ | None => _ end] => destruct o
+           end; try apply IH; reflexivity.
+Qed.
+
+Definition env_assoc (tk tv : ety) (st : astate) (scr : list mval) : menv :=
+  [MArgV ANotation;
+   MVal (match fst st with Some x => x | None => zero_of tk end);
+   MVal (match snd st with Some x => x | None => zero_of tv end);
+   MB (match fst st with Some _ => true | None => false end);
+   MB (match snd st with Some _ => true | None => false end)] ++ scr.
+
+Local Opaque has_ty is_nil zero_of.
+
+Ltac rw_has :=
+  match goal with H : has_ty _ _ = _ |- _ => rewrite H end.
+Ltac crunch :=
+  repeat first [ rw_has | progress cbv beta iota | rewrite exec_nil | progress (unfold unbreak) | timeout 10 xstep ].
+Lemma assoc_step : forall args0 tk tv f st scr a, assoc_arg a -> length scr = 7%nat ->
+  exists scr', length scr' = 7%nat /\
+    exec args0 (12 + f) (with_argument (ctx0 tk tv) a) (env_assoc tk tv st scr) (loop_body gen_Association) =
+    match astep tk tv st a with Some st' => RNormal (env_assoc tk tv st' scr') | None => RPanic end.
+Proof.
+  intros args0 tk tv f st scr a Ha L. explode scr 7. destruct st as [[k|] [v|]]; destruct a; cbn [assoc_arg] in Ha; try contradiction.
+  all: cbn [astep arg_val plus]; norm_body.
+  all: repeat match goal with |- context [has_ty ?t ?w] => let E := fresh "E" in destruct (has_ty t w) eqn:E end.
+  all: unfold env_assoc; cbn [fst snd app].
+  all: first [ eexists; split; [|timeout 60 crunch; reflexivity]; reflexivity
+             | exists (repeat MNone 7%nat); split; [reflexivity|timeout 60 crunch; reflexivity]
+             | idtac ].
+Qed.
+
+Ltac rw_nil := match goal with H : is_nil _ = _ |- _ => rewrite H end.
+Ltac crunch_nil :=
+  repeat first [ rw_nil | progress cbv beta iota | rewrite exec_nil | progress (unfold unbreak) | timeout 10 xstep ].
+
+Definition assoc_finish (tk tv : ety) (st : astate) : out fres :=
+  let k := match fst st with Some x => x | None => zero_of tk end in
+  let v := match snd st with Some x => x | None => zero_of tv end in
+  if is_nil k || is_nil v then Panic else Ret (FAssoc k v).
+
+Lemma assoc_post : forall args0 tk tv f st scr, length scr = 7%nat ->
+  result_of (exec args0 (12 + f) (ctx0 tk tv) (env_assoc tk tv st scr) (post_body gen_Association)) =
+  out_map FO (assoc_finish tk tv st).
+Proof.
+  intros args0 tk tv f st scr L. explode scr 7. destruct st as [[k|] [v|]].
+  all: unfold env_assoc, assoc_finish; cbn [fst snd app plus]; norm_body.
+  all: match goal with |- context [is_nil ?a || is_nil ?b] => destruct (is_nil a) eqn:N1; destruct (is_nil b) eqn:N2 end.
+  all: timeout 60 crunch_nil; reflexivity.
+Qed.
+
+Theorem gen_Association_is_the_model : forall tk tv args, Forall assoc_arg args ->
+  run_ctor gen_Association tk tv args = out_map FO (facade FAssociation tk tv args).
+Proof.
+  intros tk tv args Hok; unfold run_ctor, exec_fuel.
+  let b := eval vm_compute in (g_body gen_Association) in change (g_body gen_Association) with b.
+  let n := eval vm_compute in (g_locals gen_Association) in change (g_locals gen_Association) with n.
+  cbn [repeat].
+  repeat (lazymatch goal with |- context [exec _ _ _ _ (SArgLoop _ :: _)] => fail | |- _ => xstep end).
+  rewrite exec_cons; cbn [exec1].
+  match goal with
+  | |- context [fold_loop ?st args ?e] =>
+    pose proof (loop_sim astate (env_assoc tk tv) (astep tk tv) assoc_arg 7%nat st
+                  (fun s scr a Ha L => assoc_step args tk tv _ s scr a Ha L) args (None, None) (repeat MNone 7%nat) Hok eq_refl) as H;
+    change e with (env_assoc tk tv (None, None) (repeat MNone 7%nat))
+  end.
+  unfold facade, association. rewrite assoc_loop_is_fold.
+  destruct (fold_model (astep tk tv) (None, None) args) as [[key value]|].
+  - destruct H as (scr' & L' & E). rewrite E. cbv beta iota. apply (assoc_post args tk tv _ (key, value) scr' L').
+  - rewrite H. reflexivity.
+Qed.
